@@ -220,9 +220,10 @@ class IndexedCache:
         :rtype: None
         """
         # Make a shallow copy only for seen_set tracking to avoid mutating caller's dict
-        if not index or not assignment:
+        if not index or not (assignment or self.keys):
             self.flat_cache.add(output)
             return
+        # An empty assignment of an indexed cache is stored under the wildcard of every key, it matches any lookup.
 
         seen_assignment = dict(assignment)
         self.seen_set.add(seen_assignment)
